@@ -28,7 +28,9 @@ def trouble_values(c):
     """[(value class, value)]"""
     t = c.typ
     if t == "Bool":
-        return [("true", True), ("false", False)]
+        # the strings are texts a tolerant reader might accept (the pinned tree refuses them at construction): whatever
+        # is accepted must still be WRITTEN as Y or N - by this instance and by every later one
+        return [("alias-text", "TRUE"), ("alias-text", "FALSE"), ("alias-text", "YES"), ("alias-text", "no"), ("alias-text", "1"), ("alias-text", "y"), ("true", True), ("false", False), ("text-Y", "Y"), ("text-N", "N")]
     if t == "Integer":
         n = c.params
         top = 10**n - 1 if n is not None else 10**30
